@@ -309,6 +309,12 @@ def annotation_gaps(text, info, names, degraded, lost=()):
                 outside = (ids[0] not in crate_types) if not tok.startswith('.') else (nm in WEAKLY_SPECIFIED_METHODS and nm not in real_fns)
                 if outside and tok not in base_all:
                     reasons.append('calls-external-function-the-reviewed-tree-never-calls:' + tok[:-1])
+                elif not tok.startswith('.') and tok not in base_all and nm in real_fns:
+                    # a call the reviewed tree never makes, to a crate function none of whose definitions carries a contract
+                    # (e.g. a `Default::default` impl): the verifier knows nothing about the result
+                    sigs = [m_.group(0) for m_ in re.finditer(r'\bfn\s+' + re.escape(nm) + r'\b[^{;]*', text)]
+                    if sigs and not any('ensures' in sg or 'returns' in sg for sg in sigs):
+                        reasons.append('calls-crate-function-that-has-no-contract:' + tok[:-1])
             # (vi) a comparison method called on a tuple or array expression: dispatched through Ord / PartialEq of a foreign
             # type, which Verus accepts without constraining the result
             pl = exotic_strip(plain)
@@ -344,6 +350,94 @@ def annotation_gaps(text, info, names, degraded, lost=()):
         if reasons:
             out[n] = sorted(set(reasons))
     return out
+
+
+def _header_chain(plain, pos):
+    """headers of the blocks that enclose offset `pos` of comment/string-free code, innermost first, up to the enclosing fn"""
+    depth, i, out = 0, pos - 1, []
+    while i >= 0:
+        c = plain[i]
+        if c == '}':
+            depth += 1
+        elif c == '{':
+            if depth == 0:
+                k = max(plain.rfind(';', 0, i), plain.rfind('{', 0, i), plain.rfind('}', 0, i))
+                hdr = re.sub(r'\s+', '', plain[k + 1:i])
+                out.append(hdr)
+                if re.search(r'\bfn\b', plain[k + 1:i]):
+                    break
+            else:
+                depth -= 1
+        i -= 1
+    return out
+
+
+def _ghost_chains(marked, gopen, gclose):
+    """{whitespace-free ghost text: [header chain of each occurrence]} for text whose ghost regions sit between the markers"""
+    regs = []
+
+    def rep(m):
+        regs.append(m.group(1))
+        return '\x00%d\x00' % (len(regs) - 1)
+    t = re.sub(re.escape(gopen) + r'(.*?)' + re.escape(gclose), rep, marked, flags=re.S)
+    t = exotic_strip(t)
+    out = {}
+    for m in re.finditer(r'\x00(\d+)\x00', t):
+        key = re.sub(r'\s+', '', regs[int(m.group(1))])
+        out.setdefault(key, []).append(_header_chain(re.sub(r'\x00\d+\x00', '', t[:m.start()]), len(re.sub(r'\x00\d+\x00', '', t[:m.start()]))))
+    return out
+
+
+def ghost_hints_under_changed_conditions(run, text, n):
+    """If EVERY diagnostic of function `n` is a failed ghost assertion or a failed precondition of a ghost (lemma) call inside an
+    inserted proof region, and at least one of those regions now sits under a different chain of enclosing block headers
+    (`if` conditions, match arms, loops) than in the reviewed annotated copy, the proof hints no longer describe the code they
+    are attached to: -> list of reasons, else []."""
+    parts = n.split('::')
+    mname, short = parts[0], re.split(r'__nec_|__ref_', parts[-1])[0]
+    side = os.path.join(VERIF, 'contracts', mname + '.rs')
+    if mname not in extract.MODS or not os.path.exists(side):
+        return []
+    starts = [0]
+    for i, ch in enumerate(text):
+        if ch == '\n':
+            starts.append(i + 1)
+    idx = runverus.line_index(text)
+    regions = [(m.start(), m.end(), m.group(1)) for m in re.finditer(re.escape(extract.GOPEN) + r'(.*?)' + re.escape(extract.GCLOSE), text, flags=re.S)]
+    hit = []
+    any_diag = False
+    for d in run['diagnostics']:
+        sps = [sp for sp in d['spans'] if sp['file'].endswith('.rs') and 'std_specs' not in sp['file'] and 0 < sp['line'] <= len(idx) and idx[sp['line'] - 1] == short]
+        if not sps:
+            continue
+        any_diag = True
+        if not d['message'].startswith(('assertion failed', 'precondition not satisfied')):
+            return []
+        prim = [sp for sp in sps if sp.get('primary')] or sps
+        sp = prim[0]
+        off = starts[sp['line'] - 1] + max(0, sp.get('col', 1) - 1)
+        reg = [r for r in regions if r[0] <= off < r[1]]
+        if not reg:
+            return []
+        hit.append(reg[0])
+    if not any_diag or not hit:
+        return []
+    mods = [(m.start(), m.group(1)) for m in re.finditer(r'^(?:pub(?:\([a-z]+\))? )?mod (\w+) \{', text, flags=re.M)]
+    st = [x for x in mods if x[1] == mname]
+    nxt = [x[0] for x in mods if st and x[0] > st[0][0]]
+    if not st:
+        return []
+    cur = _ghost_chains(text[st[0][0]:(nxt[0] if nxt else len(text))], extract.GOPEN, extract.GCLOSE)
+    base = _ghost_chains(open(side).read(), extract.OPEN, extract.CLOSE)
+    out = []
+    for r in hit:
+        key = re.sub(r'\s+', '', r[2])
+        # (the outermost header - the fn signature - may legitimately differ by inserted contract text; compare the inner ones)
+        c = sorted(tuple(ch[:-1]) for ch in cur.get(key, []))
+        b = sorted(tuple(ch[:-1]) for ch in base.get(key, []))
+        if b and c != b:
+            out.append('proof-hint-now-sits-under-a-different-condition-than-in-the-reviewed-copy')
+    return sorted(set(out))
 
 
 def exotic_strip(code):
@@ -795,6 +889,11 @@ def main():
         names = [n for n, k in failed]
         gaps = annotation_gaps(text, info, names, degraded, lost=set(lost_in))
         cov['annotation_gaps'] = gaps
+        for n in names:
+            if not n.startswith('kani:') and n not in gaps:
+                gh = ghost_hints_under_changed_conditions(run, text, n)
+                if gh:
+                    gaps[n] = gh
         unsure = [n for n in names if not n.startswith('kani:') and (re.split(r'__nec_|__ref_', n.split('::')[-1])[0] in lost_in or n in gaps)]
         if unsure and len(unsure) == len(names):
             why = ';'.join('%s:%s' % (n.split('::')[-1], '+'.join(gaps[n])[:80]) for n in unsure if n in gaps)
